@@ -524,6 +524,19 @@ func main() {
 			def("launch_rejects_secure_reattach", "bool", coqBool(secRe), "client.go Start: SecureConfig together with Reattach returns an error before anything is attached")
 			def("launch_rejects_mux_reattach", "bool", coqBool(muxRe), "client.go Start: GRPCBrokerMultiplex together with Reattach returns an error before anything is attached")
 		}
+		{
+			freshAll, any := true, false
+			ast.Inspect(start, func(n ast.Node) bool {
+				if ce, ok := n.(*ast.CallExpr); ok && exprString(ce.Fun) == "runner.Kill" {
+					any = true
+					if !(len(ce.Args) == 1 && exprString(ce.Args[0]) == "context.Background()") {
+						freshAll = false
+					}
+				}
+				return true
+			})
+			def("start_kill_ctx_background", "bool", coqBool(any && freshAll), "client.go Start: the clean-up's runner.Kill is handed context.Background(), not the start context (which is done after a timeout)")
+		}
 		// the runner is recorded on the client before runner.Start is called (so that Kill can reach a runner whose Start fails)
 		var recPos, startPos token.Pos
 		ast.Inspect(start, func(n ast.Node) bool {
@@ -633,6 +646,17 @@ func main() {
 		def("kill_defers_dir_removal", "bool", coqBool(removesDir && earlyReturn && earlyPos < deferPos), "client.go Kill: a deferred function, registered after the early return, removes the socket directory (os.RemoveAll(hostSocketDir))")
 		def("kill_forgets_runner", "bool", coqBool(forgets), "client.go Kill: the deferred function sets c.runner = nil")
 		def("kill_force_kills", "bool", coqBool(forceKill), "client.go Kill: runner.Kill is called on the non-graceful path")
+		freshAll, any := true, false
+		ast.Inspect(kill, func(n ast.Node) bool {
+			if ce, ok := n.(*ast.CallExpr); ok && exprString(ce.Fun) == "runner.Kill" {
+				any = true
+				if !(len(ce.Args) == 1 && exprString(ce.Args[0]) == "context.Background()") {
+					freshAll = false
+				}
+			}
+			return true
+		})
+		def("kill_ctx_background", "bool", coqBool(any && freshAll), "client.go Kill: every runner.Kill call is handed context.Background() (a context that cannot already be done)")
 	}
 
 	// logStderr level prefixes
